@@ -20,7 +20,7 @@ def make_jobs(prop, tier, only=None):
         stride = 3 if quick else 1
         for ph in range(parts):
             jobs.append(dict(prop=prop, docs=[name], stride=parts * stride, phase=ph * stride, nparts=parts, part=ph, timeout=120 if quick else 600, no_unicode_digits=quick))
-    snames = list(mutworker.SCALAR_DOCS)
+    snames = [n for n in mutworker.SCALAR_DOCS if not (prop == 'C09' and n in ('dtfold', 'dtfold2'))]      # decoding of repeated-hour date-times is C03's subject
     for i in range(0, len(snames), 2):
         jobs.append(dict(prop=prop, docs=snames[i:i + 2], scalar=True, timeout=120 if quick else 600, no_unicode_digits=quick))
     # fully symbolic short scalar texts: every character an unconstrained code point (all texts of that length)
